@@ -1,6 +1,8 @@
 package main
 
 import (
+	"go/types"
+	"fmt"
 	"go/token"
 	"strings"
 
@@ -116,6 +118,37 @@ func runC09(w *World, r *Report) {
 			}
 		}
 		r.Check(okEns, "R4", "TryToIncrement/ensureWindow-before-compare", try.Pos(), "ensureWindowIsUpdated is called once, before the bound comparison and the increment")
+		// the window is aligned with the configuration of THIS call (a reload changes window size and allowance)
+		wd := fieldStores(try, "windowData")
+		okWd := len(wd) == 1 && len(ens) == 1 && Path(wd[0].Val) == "param:windowData" && domInstr(wd[0], ens[0]) && len(CondsOf(wd[0].Block())) == 0
+		r.Check(okWd, "R4", "TryToIncrement/window-data-refreshed-before-alignment", try.Pos(), "state.windowData = windowData is stored unconditionally before ensureWindowIsUpdated")
+		// spill-over is an opt-in allowance: it stays 0 unless SpilloverEnabled
+		if ew := w.Fn(pkgLimit, "singleRateLimitState.ensureWindowIsUpdated"); ew != nil {
+			sp := fieldStores(ew, "spillover")
+			okSp := len(sp) >= 1
+			var why []string
+			for _, st := range sp {
+				if k, isK := peel(st.Val).(*ssa.Const); isK && k.Value != nil && k.Value.ExactString() == "0" {
+					continue
+				}
+				if !condsHave(expandConds(CondsOf(st.Block())), true, func(v ssa.Value) bool { return Path(v) == "param:state.windowData.SpilloverEnabled" }) {
+					okSp = false
+					why = append(why, "non-zero store at "+w.Pos(st.Pos())+" not conditioned on SpilloverEnabled")
+				}
+			}
+			for _, f := range w.lunarFns {
+				if f.Origin() != nil || f == ew || fnPkgPath(f) != pkgLimit {
+					continue
+				}
+				for _, st := range fieldStores(f, "spillover") {
+					if _, sn := namedOf(st.Addr.(*ssa.FieldAddr).X.Type()); sn == "singleRateLimitState" && !isFreshBase(st.Addr.(*ssa.FieldAddr).X) {
+						okSp = false
+						why = append(why, "spillover written in "+shortFn(fnID(outermost(f))))
+					}
+				}
+			}
+			r.Check(okSp, "R3", "ensureWindowIsUpdated/spillover-only-when-enabled", ew.Pos(), "the spill-over allowance changes to a non-zero value only under windowData.SpilloverEnabled and nowhere else %v", why)
+		}
 	}
 
 	// R2 writers of counter
@@ -271,6 +304,58 @@ func runC09(w *World, r *Report) {
 			ok = strings.HasSuffix(Path(v), ".AllowedRequestCount")
 		}
 		r.Check(ok, "R3", "OnRequest/windowData."+f.field, posOf(call), "%s = %s", f.field, Path(v))
+		if f.field == "QuotaAllocationRatio" && v != nil {
+			// the share is the group's own: 1 without group allocation, the group's ratio when
+			// it is configured, the default percentage only when it is not
+			okShare := true
+			var why []string
+			nGroup := 0
+			for _, alt := range expandAlt(v, nil, call.Block(), nil, 6) {
+				alt.Conds = expandConds(alt.Conds)
+				rels := relsOfConds(alt.Conds)
+				switch x := peel(alt.Val).(type) {
+				case *ssa.Const:
+					opNil, _ := FindRel(rels, func(y ssa.Value) bool { return strings.HasSuffix(Path(y), ".GroupQuotaAllocation") }, isNilConst)
+					if x.Value == nil || x.Value.ExactString() != "1" || opNil != "==" {
+						okShare = false
+						why = append(why, "constant "+Path(x)+" under GroupQuotaAllocation "+opNil+" nil")
+					}
+				case *ssa.Extract:
+					found := condsHave(alt.Conds, true, func(y ssa.Value) bool { e, ok := y.(*ssa.Extract); return ok && e.Index == 1 && e.Tuple == x.Tuple })
+					if !found && x.Index == 0 && isCallTo0(x.Tuple, "remedies.getQuotaAllocationRatio") {
+						// fall-through of the default-behaviour switch: infeasible when every constant of
+						// the enumeration has its own case (all of them appear negated on this edge)
+						nNeg := 0
+						for _, rel := range rels {
+							if rel.Op == "!=" && (isCallTo0(rel.L, "GroupQuotaAllocation).DefaultBehavior") || isCallTo0(rel.R, "GroupQuotaAllocation).DefaultBehavior")) {
+								nNeg++
+							}
+						}
+						if nEnum := w.enumSize("lunar/shared-model/config", "DefaultQuotaGroupBehavior"); nEnum > 0 && nNeg == nEnum {
+							continue
+						}
+					}
+					if x.Index != 0 || !isCallTo0(x.Tuple, "remedies.getQuotaAllocationRatio") || !found {
+						okShare = false
+						why = append(why, "group ratio used with found="+fmt.Sprint(found))
+					}
+					nGroup++
+				case *ssa.BinOp:
+					notFound := condsHave(alt.Conds, false, func(y ssa.Value) bool {
+						e, ok := y.(*ssa.Extract)
+						return ok && e.Index == 1 && isCallTo0(e.Tuple, "remedies.getQuotaAllocationRatio")
+					})
+					if x.Op != token.QUO || !strings.HasSuffix(Path(x.X), "GroupQuotaAllocation.DefaultAllocationPercentage") || Path(x.Y) != "100" || !notFound {
+						okShare = false
+						why = append(why, "default share "+trunc(Path(x), 60)+" with notFound="+fmt.Sprint(notFound))
+					}
+				default:
+					okShare = false
+					why = append(why, "other value "+trunc(Path(alt.Val), 60))
+				}
+			}
+			r.Check(okShare && nGroup == 1, "R7", "OnRequest/share-of-the-request-group", posOf(call), "QuotaAllocationRatio is 1 without group allocation, the group's own ratio when found, the default percentage/100 only when not found %v", why)
+		}
 	}
 
 	// R6 verdict mapping
@@ -369,4 +454,23 @@ func firstBlockOf(stores []*ssa.Store, fn *ssa.Function) *ssa.BasicBlock {
 		return stores[0].Block()
 	}
 	return fn.Blocks[0]
+}
+
+
+// enumSize counts the constants declared with the named type pkg.name.
+func (w *World) enumSize(pkg, name string) int {
+	p := w.ByPath[pkg]
+	if p == nil {
+		return 0
+	}
+	n := 0
+	sc := p.Types.Scope()
+	for _, id := range sc.Names() {
+		if c, ok := sc.Lookup(id).(*types.Const); ok {
+			if nt, ok := c.Type().(*types.Named); ok && nt.Obj().Name() == name {
+				n++
+			}
+		}
+	}
+	return n
 }
